@@ -232,9 +232,29 @@ def call_sites():
         for n in ast.walk(mod.tree):
             if isinstance(n, ast.Attribute) and n.attr == "parent_context" and isinstance(n.ctx, ast.Load):
                 uses.append(f"{m}@{n.lineno}")
-    # ... except by copy(), which walks it to find the root context's global data
-    cp = load.find_method("liquid.context", "RenderContext", "copy")[2]
-    allowed = {f"liquid.context@{n.lineno}" for n in ast.walk(cp) if isinstance(n, ast.Attribute) and n.attr == "parent_context"}
+    # ... except by copy(), which walks it to find the root context's global data -- directly or in
+    # a private helper of RenderContext that nothing but copy() (or such a helper) calls
+    ctx_cls = load.get_module("liquid.context").classes["RenderContext"]
+    methods = {f.name: f for f in ctx_cls.body if isinstance(f, (ast.FunctionDef, ast.AsyncFunctionDef))}
+    allowed_fns = {"copy"}
+    changed = True
+    while changed:
+        changed = False
+        for name, f in methods.items():
+            if name in allowed_fns or not name.startswith("_") or name.startswith("__"):
+                continue
+            callers = set()
+            for m in load.all_modules():
+                mod = load.get_module(m)
+                pm = flow.parents(mod.tree)
+                for cl in flow.calls(mod.tree):
+                    if isinstance(cl.func, ast.Attribute) and cl.func.attr == name:
+                        enc = flow.enclosing(pm, cl, (ast.FunctionDef, ast.AsyncFunctionDef))
+                        callers.add((m, enc[0].name if enc else "?"))
+            if callers and all(m == "liquid.context" and fn in allowed_fns for m, fn in callers):
+                allowed_fns.add(name)
+                changed = True
+    allowed = {f"liquid.context@{n.lineno}" for name in allowed_fns for n in ast.walk(methods[name]) if isinstance(n, ast.Attribute) and n.attr == "parent_context"}
     uses = [u for u in uses if u not in allowed]
     obs.append(flow.ob("parent_context-is-read-only-by-copy-to-find-the-global-data", not uses, str(uses)))
     return obs
